@@ -279,6 +279,7 @@ def build(u):
     _sp = open(_os.path.join(u.verif, 'spec/u_parse_spec.rs')).read().replace('KKK', str(K))
     open(_os.path.join(u.verif, '.work', 'u_parse_spec_k.rs'), 'w').write(_sp)
     u.include('.work/u_parse_spec_k.rs', kind='spec')
+    u.include('spec/u_hdr_spec.rs', kind='spec')
     # ---- node buffer (real code)
     RB = [rules.r13_assert_eq, rules.r19_with_capacity, rules.r21_cmp_minmax, rules.r20_param_patterns, rules.r23_push_within_capacity('self.declarations')]
     u.emit(PT, 'impl ParseTree #0', rules=RB, pre=lambda t: t.replace('tokens: &Tokens,', 'tokens: &lexer::tokens::Tokens,'))
